@@ -416,9 +416,72 @@ pub fn gen_history(seed: u64, tier: &str) -> Vec<String> {
         for g in 0..trees {
             out.push(format!("dump g{}", g));
         }
+        // a cache is not tied to one `Syntax`: a second dialect gives a static kind a text of another length and
+        // builds through the same cache (the table of the session's syntax is switched and switched back; the
+        // earlier trees are not read while it is)
+        if i % 4 == 2 {
+            let (sk, old) = *rng.pick(&STATICS[..]);
+            let alt = *rng.pick(&["=>", "", "and", "é"]);
+            if alt.len() != old.len() {
+                let leaf = |rng: &mut Rng| RefTree::Tok(INTERNED_KINDS[rng.below(3)], rng.pick(&TEXTS[..]).to_string());
+                // the same shapes under both dialects, so that everything but the static token is a cache hit
+                let shapes = |txt: &str, a: &RefTree, b: &RefTree| {
+                    RefTree::Node(0, vec![a.clone(), RefTree::Tok(sk, txt.to_string()), RefTree::Node(1, vec![RefTree::Tok(sk, txt.to_string()), b.clone()]), RefTree::Tok(sk, txt.to_string())])
+                };
+                let (a, b) = (leaf(&mut rng), leaf(&mut rng));
+                let mut g = trees;
+                for (txt, switch) in [(old, false), (alt, true)] {
+                    if switch {
+                        out.push(format!("syn {} {}", sk, hex(txt)));
+                    }
+                    let t = shapes(txt, &a, &b);
+                    let mut evs = vec![];
+                    // static kinds only through `static_token`: the text is the dialect's
+                    compact_tree_static(&t, &mut evs);
+                    if rng.chance(1, 2) {
+                        out.push(format!("wbuild with_cache c0 {}", evs.join(",")));
+                    } else {
+                        out.push("builder c0".into());
+                        for e in &evs {
+                            out.push(match e.as_bytes()[0] {
+                                b's' => format!("start {}", &e[1..]),
+                                b'k' => format!("stok {}", &e[1..]),
+                                b't' => { let (k, h) = e[1..].split_once(':').unwrap(); format!("tok {} {}", k, h) }
+                                _ => "finish_node".into(),
+                            });
+                        }
+                        out.push("finish".into());
+                    }
+                    after_finish(&mut out, g);
+                    out.push(format!("dump g{}", g));
+                    g += 1;
+                }
+                out.push(format!("syn {} {}", sk, hex(old)));
+            }
+        }
     }
     out.push(format!("cfg mask {}", u32::MAX));
     out
+}
+
+/// `compact_tree` with every static kind emitted as `static_token`
+pub fn compact_tree_static(t: &RefTree, out: &mut Vec<String>) {
+    match t {
+        RefTree::Tok(k, s) => {
+            if static_kind(*k) {
+                out.push(format!("k{}", k));
+            } else {
+                out.push(format!("t{}:{}", k, hex(s)));
+            }
+        }
+        RefTree::Node(k, cs) => {
+            out.push(format!("s{}", k));
+            for c in cs {
+                compact_tree_static(c, out);
+            }
+            out.push("f".into());
+        }
+    }
 }
 
 /// C10: intern/resolve sequences over every back end, raw key probes
